@@ -1,0 +1,288 @@
+//go:build verif
+
+package http2
+
+// Contracts that bring formerly trusted functions under check (extend ... untrusted).
+
+// ---------------------------------------------------------------------------
+// pipe.go / databuffer.go (C10, C11)
+
+// pipeOK is the object invariant of a pipe as far as the accounting of unread bytes needs it:
+// the buffer, if any, is a non-nil *dataBuffer (the only pipeBuffer the package ever installs)
+// with a non-negative size, and the count of bytes dropped by BreakWithError is non-negative.
+//
+//@ pure
+func pipeOK(p *pipe) bool {
+	if p == nil || p.unread < 0 {
+		return false
+	}
+	if p.b == nil {
+		return true
+	}
+	db, ok := p.b.(*dataBuffer)
+	return ok && db != nil && db.size >= 0
+}
+
+// pipeBuffered is the number of bytes Len reports.
+//
+//@ pure
+func pipeBuffered(p *pipe) int {
+	if p.b == nil {
+		return p.unread
+	}
+	return p.b.(*dataBuffer).size
+}
+
+//@ func (*dataBuffer).Len(b) (n)
+//@   requires b != nil
+//@   ensures n == b.size
+
+//@ extend (*pipe).Len(p) (n)
+//@   untrusted
+//@   requires pipeOK(p)
+//@   ensures n == pipeBuffered(p)
+
+// dataBuffer.Write accepts everything: it returns (len(p), nil) and the buffered size grows by
+// exactly len(p). dataBuffer.Read hands out at most len(p) bytes and the size shrinks by exactly
+// the count returned. The index/slice bounds inside the chunk list depend on the chunk-list
+// invariant of dataBuffer (sizes of the chunks sum up to size), which is not stated here:
+// no-panic obligations of these two units are assumed (partial nopanic), the results and the
+// accounting are checked.
+//
+//@ func (*dataBuffer).Write(b, p) (n, err)
+//@   partial nopanic
+//@   requires b != nil
+//@   ensures n == len(p) && err == nil
+//@   ensures b.size == old(b.size) + len(p)
+//@   loop 1 invariant 0 <= len(p) && len(p) <= ntotal && ntotal == len(old(p))
+//@   loop 1 invariant b.size == old(b.size) + (ntotal - len(p))
+//@   modifies *b
+//@   noframe
+//@
+//@ func (*dataBuffer).Read(b, p) (n, err)
+//@   partial nopanic
+//@   requires b != nil
+//@   ensures 0 <= n && n <= len(p)
+//@   ensures err != nil <==> old(b.size) == 0
+//@   ensures err != nil ==> n == 0
+//@   ensures b.size == old(b.size) - n
+//@   loop 1 invariant 0 <= ntotal && ntotal + len(p) == len(old(p))
+//@   loop 1 invariant b.size == old(b.size) - ntotal
+//@   modifies *b, elems(p)
+//@   noframe
+
+// putDataBufferChunk returns a chunk to a sync.Pool (slice-to-array-pointer conversion: outside
+// the verifier's subset). Abstracted: it writes nothing of the program's own memory.
+//
+//@ func putDataBufferChunk(p)
+//@   opaque
+
+// pipe.Write: refused (0 bytes, errClosedPipeWrite) once the pipe was closed or broken, refused
+// (errUninitializedPipeWrite) without a buffer, otherwise everything is accepted and the buffered
+// byte count grows by exactly len(d); nothing else of the pipe changes.
+//
+//@ extend (*pipe).Write(p, d) (n, err)
+//@   untrusted
+//@   requires pipeOK(p)
+//@   ensures  old(p.err != nil || p.breakErr != nil) ==> n == 0 && err == errClosedPipeWrite
+//@   ensures  old(p.err == nil && p.breakErr == nil && p.b == nil) ==> n == 0 && err == errUninitializedPipeWrite
+//@   ensures  old(p.err == nil && p.breakErr == nil && p.b != nil) ==> n == len(d) && err == nil
+//@   ensures  err != nil ==> pipeBuffered(p) == old(pipeBuffered(p))
+//@   ensures  err == nil ==> pipeBuffered(p) == old(pipeBuffered(p)) + len(d)
+//@   ensures  p.b == old(p.b) && p.unread == old(p.unread) && p.err == old(p.err) && p.breakErr == old(p.breakErr)
+//@   modifies dataBuffer.chunks, dataBuffer.r, dataBuffer.w, dataBuffer.size, dataBuffer.expected
+
+// closeDoneLocked closes the done channel (channel operations are dropped: abstract).
+//
+//@ func (*pipe).closeDoneLocked(p)
+//@   abstract
+//@   requires p != nil
+
+// CloseWithError / BreakWithError (closeWithError): the first call of each kind records the error,
+// later calls change nothing. Close keeps the buffered bytes readable; Break drops the buffer and
+// adds its size to unread, so that Len keeps reporting the bytes that were never handed out.
+//
+//@ func (*pipe).closeWithError(p, dst, err, fn)
+//@   inline
+//@
+//@ extend (*pipe).CloseWithError(p, err)
+//@   untrusted
+//@   requires p != nil && err != nil
+//@   ensures  p.err == ite(old(p.err) != nil, old(p.err), err)
+//@   ensures  p.breakErr == old(p.breakErr) && p.b == old(p.b) && p.unread == old(p.unread)
+//@   ensures  old(p.err) != nil ==> p.readFn == old(p.readFn)
+//@   ensures  old(p.err) == nil ==> p.readFn == nil
+//@   ensures  old(pipeOK(p)) ==> pipeOK(p) && pipeBuffered(p) == old(pipeBuffered(p))
+//@
+//@ extend (*pipe).BreakWithError(p, err)
+//@   untrusted
+//@   requires pipeOK(p) && err != nil
+//@   ensures  p.breakErr == ite(old(p.breakErr) != nil, old(p.breakErr), err)
+//@   ensures  p.err == old(p.err)
+//@   ensures  old(p.breakErr) != nil ==> p.b == old(p.b) && p.unread == old(p.unread)
+//@   ensures  old(p.breakErr) == nil ==> p.b == nil
+//@   ensures  old(p.breakErr) == nil && old(p.b) == nil ==> p.unread == old(p.unread)
+//@   ensures  old(p.breakErr) == nil && old(p.b) != nil ==> p.unread == old(p.unread) + old(pipeBuffered(p))
+
+//@ extend (*pipe).Read(p, d) (n, err)
+//@   untrusted
+//@   requires pipeOK(p)
+//@   loop 1 invariant pipeOK(p)
+//@   ensures  old(p.breakErr) != nil ==> n == 0 && err == old(p.breakErr) && p.b == old(p.b) && p.unread == old(p.unread) && pipeBuffered(p) == old(pipeBuffered(p))
+//@   ensures  old(p.breakErr) == nil && old(p.b) != nil && old(pipeBuffered(p)) > 0 ==> err == nil && p.b == old(p.b) && pipeBuffered(p) == old(pipeBuffered(p)) - n && p.unread == old(p.unread)
+//@   ensures  old(p.breakErr) == nil && (old(p.b) == nil || old(pipeBuffered(p)) == 0) ==> n == 0 && err != nil && err == old(p.err) && p.b == nil && p.unread == old(p.unread) && p.readFn == nil
+//@   ensures  p.err == old(p.err) && p.breakErr == old(p.breakErr)
+//@   noframe
+
+// ---------------------------------------------------------------------------
+// server.go: sc.state (C10, C11, C15)
+
+// srvStreamOK is the object invariant of the stream registered under an id, as far as the inbound
+// DATA path needs it: the object exists and is not idle, its receive window satisfies the window invariant, an
+// open stream has a body pipe, and the body pipe satisfies the pipe invariant. It was formerly
+// assumed as a postcondition of the trusted sc.state; now it is a precondition of the units that
+// look a stream up (stated for the looked-up id only), and sc.state itself is checked.
+//
+//@ pure
+func srvStreamOK(sc *serverConn, id uint32) bool {
+	st, ok := sc.streams[id]
+	if !ok {
+		return true
+	}
+	if st == nil || st.sc == nil || st.state == stateIdle || !inflowOK(st.inflow.avail, st.inflow.unsent) {
+		return false
+	}
+	if st.state == stateOpen && st.body == nil {
+		return false
+	}
+	return st.body == nil || pipeOK(st.body)
+}
+
+// srvStreamAt is the stream registered under an id (nil if none).
+//
+//@ pure
+func srvStreamAt(sc *serverConn, id uint32) *stream {
+	if st, ok := sc.streams[id]; ok {
+		return st
+	}
+	return nil
+}
+
+// sc.state: exact classification (RFC 9113 5.1): a registered stream has its recorded state; an
+// unregistered id at or below the highest id seen from that side (maxClientStreamID for odd,
+// maxPushPromiseID for even ids) is closed; every other id is idle. Nothing is modified.
+//
+//@ extend (*serverConn).state(sc, streamID) (state, st)
+//@   untrusted
+//@   requires srvStreamOK(sc, streamID)
+//@   requires srvStreamAt(sc, streamID) != nil ==> allocated(srvStreamAt(sc, streamID))
+//@   ensures  st == srvStreamAt(sc, streamID)
+//@   ensures  state == srvState(sc, streamID)
+//@   ensures  st != nil && st.body != nil ==> pipeOK(st.body)
+//@   ensures  st == nil ==> (state == stateClosed <==> ((streamID%2 == 1 && streamID <= sc.maxClientStreamID) || (streamID%2 == 0 && streamID <= sc.maxPushPromiseID)))
+//@   ensures  st == nil ==> state == stateClosed || state == stateIdle
+
+//@ extend (*serverConn).processData(sc, f) (err)
+//@   requires srvStreamOK(sc, f.StreamID)
+//@   requires srvStreamAt(sc, f.StreamID) != nil ==> allocated(srvStreamAt(sc, f.StreamID))
+
+//@ extend (*serverConn).processWindowUpdate(sc, f) (err)
+//@   requires srvStreamOK(sc, f.StreamID)
+//@   requires srvStreamAt(sc, f.StreamID) != nil ==> allocated(srvStreamAt(sc, f.StreamID))
+
+// ---------------------------------------------------------------------------
+// transport.go: rl.streamByID (C10, C11)
+
+// cliStreamOK: object invariant of the client stream registered under an id (window invariant and
+// pipe invariant of its response buffer). Formerly assumed as a postcondition of the trusted
+// streamByID; now a precondition of the units that look a stream up, and streamByID is checked.
+//
+//@ pure
+func cliStreamOK(cc *ClientConn, id uint32) bool {
+	cs := cc.streams[id]
+	return cs == nil || (inflowOK(cs.inflow.avail, cs.inflow.unsent) && pipeOK(&cs.bufPipe))
+}
+
+// streamByID: the registered stream, unless it is unknown or its reading side was aborted; the
+// connection notes that frames up to nextStreamID were read, and a HEADERS/DATA frame lifts the
+// RST_STREAM ping block.
+//
+//@ extend (*clientConnReadLoop).streamByID(rl, id, headerOrData) (cs)
+//@   untrusted
+//@   requires cliStreamOK(rl.cc, id)
+//@   requires rl.cc.streams[id] != nil ==> allocated(rl.cc.streams[id])
+//@   ensures  cs == ite(rl.cc.streams[id] != nil && !rl.cc.streams[id].readAborted, rl.cc.streams[id], nil)
+//@   ensures  cs != nil ==> pipeOK(&cs.bufPipe)
+//@   ensures  rl.cc.readBeforeStreamID == rl.cc.nextStreamID
+//@   ensures  rl.cc.rstStreamPingsBlocked == (!headerOrData && old(rl.cc.rstStreamPingsBlocked))
+
+//@ extend (*clientConnReadLoop).processData(rl, f) (err)
+//@   requires cliStreamOK(rl.cc, f.StreamID)
+//@   requires rl.cc.streams[f.StreamID] != nil ==> allocated(rl.cc.streams[f.StreamID])
+
+//@ extend (transportResponseBody).Read(b, p) (n, err)
+//@   requires pipeOK(&b.cs.bufPipe)
+
+// ---------------------------------------------------------------------------
+// frame.go: DataFrame.Data, Framer.WriteWindowUpdate (C10, C11)
+
+// DataFrame.Data returns the payload slice stored by parseDataFrame. The accessor panics on a
+// frame that was invalidated by the next ReadFrame (requires f.valid); that the payload is no
+// longer than the declared frame length is the frame's object invariant (parseDataFrame cuts
+// data out of a payload of exactly Length bytes), required here instead of assumed.
+//
+//@ extend (*DataFrame).Data(f) (d)
+//@   untrusted
+//@   requires f.valid && len(f.data) <= int(f.Length)
+//@   ensures  len(d) == len(f.data) && samebase(d, f.data) && startoff(d) == startoff(f.data)
+
+//@ extend (*serverConn).processData(sc, f) (err)
+//@   requires f.valid && len(f.data) <= int(f.Length)
+//@ extend (*clientConnReadLoop).processData(rl, f) (err)
+//@   requires f.valid && len(f.data) <= int(f.Length)
+//@   requires rl.cc.fr != nil && rl.cc.fr.w != nil
+//@ extend (transportResponseBody).Read(b, p) (n, err)
+//@   requires b.cs.cc.fr != nil && b.cs.cc.fr.w != nil
+
+// WriteWindowUpdate: an increment outside 1..2^31-1 is refused (unless AllowIllegalWrites) and
+// nothing is written; otherwise the frame left in f.wbuf and handed to the io.Writer exactly once
+// is the 13-byte WINDOW_UPDATE: length 4, type 8, flags 0, the stream id, the increment big-endian.
+//
+//@ extend (*Framer).WriteWindowUpdate(f, streamID, incr) (err)
+//@   untrusted
+//@   requires f != nil && f.w != nil
+//@   ghost sent += 1 at call endWrite
+//@   ensures  (incr < 1 || incr > 2147483647) && !old(f.AllowIllegalWrites) ==> err != nil && ghost(sent) == 0 && len(f.wbuf) == old(len(f.wbuf)) && samebase(f.wbuf, old(f.wbuf))
+//@   ensures  (1 <= incr && incr <= 2147483647) || old(f.AllowIllegalWrites) ==> ghost(sent) == 1 && len(f.wbuf) == 13 && hdrIs(f.wbuf, FrameWindowUpdate, 0, streamID, 4)
+//@   ensures  (1 <= incr && incr <= 2147483647) || old(f.AllowIllegalWrites) ==> be32(f.wbuf[9], f.wbuf[10], f.wbuf[11], f.wbuf[12]) == incr
+//@   ensures  f.AllowIllegalWrites == old(f.AllowIllegalWrites) && f.w == old(f.w)
+//@   modifies elems(f.wbuf), spare(f.wbuf)
+//@   allocates
+
+// ---------------------------------------------------------------------------
+// server.go: stream.endStream (C10, C15)
+
+// endStream closes the request body pipe (with io.EOF when the declared Content-Length was met or
+// none was declared, with a length error otherwise; a pipe that is already closed keeps its error)
+// and moves the stream to half-closed (remote). It writes the stream state and the body pipe only.
+//
+//@ extend (*stream).endStream(st)
+//@   untrusted
+//@   requires st.sc != nil && st.body != nil
+//@   ensures  st.state == stateHalfClosedRemote
+//@   ensures  st.body == old(st.body) && st.body.err != nil && st.body.breakErr == old(st.body.breakErr)
+//@   ensures  old(st.body.err) != nil ==> st.body.err == old(st.body.err)
+//@   ensures  old(st.body.err) == nil && (st.declBodyBytes == -1 || st.declBodyBytes == st.bodyBytes) ==> st.body.err == io.EOF
+//@   ensures  old(st.body.err) == nil && !(st.declBodyBytes == -1 || st.declBodyBytes == st.bodyBytes) ==> st.body.err != io.EOF
+//@   ensures  st.body.b == old(st.body.b) && st.body.unread == old(st.body.unread)
+//@   modifies *st.body
+//@   allocates
+
+// closeStream is a havoccalls unit: the calls before p.Len() (ConnState hook, graceful shutdown)
+// are abstracted by a heap havoc, so the pipe invariant of st.body cannot be derived at that call;
+// it is assumed there (object invariant of the body pipe; partial pre for this one call, listed).
+// The error handed to the pipe must be non-nil (all callers pass a StreamError or a package error).
+//
+//@ extend (*serverConn).closeStream(sc, st, err)
+//@   requires err != nil
+//@   partial pre:(*pipe).Len
